@@ -43,6 +43,9 @@ type simCfg struct {
 	Late      bool    `json:"late"`
 	Seed      int64   `json:"seed"`
 	MaxRounds uint64  `json:"max_rounds"`
+	// ZeroEC: no EC epoch duration / stabilisation delay, so participants begin the next instance
+	// before the slowest one decided the previous (the simulator's early-start path)
+	ZeroEC bool `json:"zero_ec_delays"`
 }
 
 func (c simCfg) power(instance uint64, id int) int64 {
@@ -215,6 +218,9 @@ func genSimCfg(seed int64, i int) simCfg {
 				sum += c.Powers[j]
 			}
 			c.AdvPower = 1 + rng.Int63n(max64(1, sum/5))
+			if rng.Intn(2) == 0 {
+				c.ZeroEC, c.Async = true, true
+			}
 		}
 		if c.honestCanProgress() {
 			return c
@@ -277,6 +283,7 @@ const (
 	clsRound       = "wrong-round"
 	clsEmpty       = "empty-value"
 	clsBase        = "wrong-base"
+	clsStaleTable  = "signers-below-quorum-of-the-instance-table-but-not-of-a-stale-one"
 	clsDisagree    = "disagreement"
 	ctlSilent      = "control-silent"
 	ctlValidFull   = "control-valid-report-all-signers"
@@ -382,9 +389,12 @@ type forger struct {
 	holder *simHolder
 	cfg    simCfg
 	class  string // "" = trace only
-	at     int
-	rng    *rand.Rand
-	budget int
+	// sameVote: report the forged decision for the very vote (value) an honest participant has
+	// already reported for the instance, so only signers/aggregate distinguish it from a valid one
+	sameVote bool
+	at       int
+	rng      *rand.Rand
+	budget   int
 
 	tr      traceInfo
 	forged  bool
@@ -464,8 +474,37 @@ func (f *forger) forge() {
 	pt := committee.PowerTable
 	t := realTable(pt)
 	want := f.cfg.table(k)
+	var staleIdx []int
 	if fmt.Sprint(t) != fmt.Sprint(want) {
-		f.skipped = "power-table-differs-from-configuration"
+		// The simulator runs instance k on a table that is not the configured table of k. "That
+		// instance's power table" is the configured one: look for a signer set that is below a
+		// strong quorum of it but passes on the simulator's table, and report a decision signed by
+		// exactly that set; Run must still error.
+		if f.class != clsStaleTable || len(t.ids) != len(want.ids) {
+			f.skipped = "power-table-differs-from-configuration"
+			return
+		}
+		pos := map[int]int{}
+		for i, id := range want.ids {
+			pos[id] = i
+		}
+		n := len(t.ids)
+		for m := 1; m < 1<<n && staleIdx == nil; m++ {
+			idx := maskIdx(m, n)
+			var ref []int
+			for _, i := range idx {
+				ref = append(ref, pos[t.ids[i]])
+			}
+			if t.quorum(idx) && want.under(ref) {
+				staleIdx = idx
+			}
+		}
+		if staleIdx == nil {
+			f.skipped = "power-table-differs-but-no-separating-signer-set"
+			return
+		}
+	} else if f.class == clsStaleTable {
+		f.skipped = "class-not-applicable"
 		return
 	}
 	base := inst.BaseChain.Head()
@@ -473,9 +512,26 @@ func (f *forger) forge() {
 	if err != nil {
 		panic(err)
 	}
+	if f.sameVote {
+		var v *gpbft.ECChain
+		for _, id := range f.holder.sm.ListParticipantIDs() {
+			if d := inst.GetDecision(id); d != nil {
+				v = d
+				break
+			}
+		}
+		if v == nil {
+			f.skipped = "same-vote-no-honest-decision-yet"
+			return
+		}
+		good = v
+	}
 	vote := gpbft.Payload{Instance: k, Round: 0, Phase: gpbft.DECIDE_PHASE, Value: good, SupplementalData: *inst.SupplementalData}
 	signedVote := vote
 	idx, ok := t.signerSet(f.class)
+	if f.class == clsStaleTable {
+		idx, ok = staleIdx, true
+	}
 	if !ok {
 		f.skipped = "class-not-applicable"
 		return
@@ -715,8 +771,8 @@ func (c simCfg) options(gen adversary.Generator) []sim.Option {
 	return []sim.Option{
 		sim.WithBaseChain(baseChain(c.Seed)),
 		sim.WithLatencyModeler(lat),
-		sim.WithECEpochDuration(30 * time.Second),
-		sim.WitECStabilisationDelay(3 * time.Second),
+		sim.WithECEpochDuration(map[bool]time.Duration{false: 30 * time.Second, true: 0}[c.ZeroEC]),
+		sim.WitECStabilisationDelay(map[bool]time.Duration{false: 3 * time.Second, true: 0}[c.ZeroEC]),
 		sim.WithGlobalStabilizationTime(1_000_000 * time.Hour), // AllowMessage is consulted for every delivery
 		sim.WithGpbftOptions(gpbft.WithDelta(200*time.Millisecond), gpbft.WithDeltaBackOffExponent(1.3),
 			gpbft.WithRebroadcastBackoff(1.3, 0, time.Second, 5*time.Second),
@@ -730,11 +786,11 @@ func (c simCfg) options(gen adversary.Generator) []sim.Option {
 
 // runForger runs the configuration with the silent forging adversary.
 // class "" is the trace-only control.
-func runForger(c simCfg, class string, at int, budget int, sub int64) (out simOutcome) {
+func runForger(c simCfg, class string, at int, budget int, sub int64, sameVote ...bool) (out simOutcome) {
 	holder := &simHolder{}
 	var f *forger
 	gen := func(id gpbft.ActorID, host adversary.Host) *adversary.Adversary {
-		f = &forger{id: id, host: host, holder: holder, cfg: c, class: class, at: at, budget: budget,
+		f = &forger{id: id, host: host, holder: holder, cfg: c, class: class, at: at, budget: budget, sameVote: len(sameVote) > 0 && sameVote[0],
 			rng: rand.New(rand.NewSource(sub)), tr: traceInfo{firstIdx: map[uint64]int{}}}
 		return &adversary.Adversary{Receiver: f, Power: gpbft.NewStoragePower(c.AdvPower), ID: id}
 	}
